@@ -9,6 +9,9 @@ CONDS = [
          'range: 0..3 subtags, each "*" or a symbolic string; tag: 0..4 symbolic subtags; subtag length 1..2 quick / 1..3 '
          'thorough over {a, b, 1, A}; well-formed by construction',
          timeout={'quick': 110, 'thorough': 900}),
+    Cond('filter_enum_ok', 'the same comparison for every range of 1..3 and every tag of 1..4 subtags over {de, u, co, x, DE, a1, *} '
+         '(singletons, wildcard, case): bounded enumeration by symbolic block index', '400 ranges x 781 tags',
+         timeout={'quick': 100, 'thorough': 300}, parts={'quick': 2, 'thorough': 2}),
     Cond('inherit_ok', 'language determined by the real matcher (via :lang(en), :lang(""), :lang("*"), :lang(fr,"en-*") '
          'with select and match) == reference: nearest lang / xml:lang incl. explicitly empty, else <meta> pragma, else '
          'unknown; iframe content is its own document in HTML/XHTML',
